@@ -11,16 +11,28 @@ use std::future::{ready, Ready, Future};
 use std::pin::Pin;
 
 macro_rules! format { ($($t:tt)*) => { Msg } }
+pub mod tracing {
+    macro_rules! trace { ($($t:tt)*) => { () } }
+    macro_rules! debug { ($($t:tt)*) => { () } }
+    macro_rules! warn_ { ($($t:tt)*) => { () } }
+    pub(crate) use {trace, debug, warn_ as warn};
+}
 #[derive(Clone, Copy)] pub struct Msg;
-/// the real std::io::Error, so that an edited body may inspect `e.kind()`; stub failures are allocation-free "simple"
-/// errors whose kind is chosen symbolically among the ones a socket produces
-pub type IoError = std::io::Error;
-pub type IoResult<T> = std::io::Result<T>;
+/// stands for std::io::Error (`std::io::Error` / `std::io::ErrorKind` in the extracted text are redirected here, see
+/// unit.json replace_all): a kind chosen symbolically among the ones a socket produces, so that an edited body may
+/// inspect `e.kind()`.  (The real std::io::Error works too but makes every harness four times slower.)
+#[derive(Clone, Copy, Debug, PartialEq, Eq)]
+pub enum ErrorKind { ConnectionReset, ConnectionAborted, BrokenPipe, TimedOut, NotConnected, UnexpectedEof, WouldBlock, Interrupted, InvalidInput, Other }
+#[derive(Clone, Copy, Debug, PartialEq, Eq)] pub struct IoError { pub kind: ErrorKind }
+impl IoError { pub fn kind(&self) -> ErrorKind { self.kind } pub fn new<M>(kind: ErrorKind, _m: M) -> IoError { IoError { kind } } }
+impl From<ErrorKind> for IoError { fn from(kind: ErrorKind) -> IoError { IoError { kind } } }
+impl std::fmt::Display for IoError { fn fmt(&self, _f: &mut std::fmt::Formatter<'_>) -> std::fmt::Result { Ok(()) } }
+pub type IoResult<T> = Result<T, IoError>;
 #[allow(non_snake_case)]
-pub fn IoError(code: u8) -> std::io::Error {
-    use std::io::ErrorKind::*;
+pub fn IoError(code: u8) -> IoError {
+    use ErrorKind::*;
     let k = nondet_u8();
-    std::io::Error::from(if k == 0 { ConnectionReset } else if k == 1 { ConnectionAborted } else if k == 2 { BrokenPipe } else if k == 3 { TimedOut } else { Other })
+    IoError { kind: if k == 0 { ConnectionReset } else if k == 1 { ConnectionAborted } else if k == 2 { BrokenPipe } else if k == 3 { TimedOut } else { Other } }
 }
 #[derive(Clone, Copy, Debug, PartialEq, Eq)] pub struct Error(pub u8);
 pub fn err_msg<T>(_m: T) -> Error { Error(100) }
